@@ -210,7 +210,7 @@ def c11(run):
     if rc != 0:
         run.broke('harness build', o[-1500:])
     else:
-        D.correspond(run, 'mac', [])
+        D.correspond(run, 'mac', [], reference_theorem='C11_hmac_tag_is_rfc / C11_aesmac_is_cbcmac')
         D.run_minlink(run, 'C11_hmac_tag_is_rfc')
     run.cov['rule'] = ('8 MAC algorithms x random keys x message lengths 0..40 (every residue mod 16), neighbourhoods of 64/128, 4095..5000 (thorough: 0..400, 16384, 65535, 65536) '
                        'with tags compared to the Gallina reference; per message: truncated/extended/bit-flipped/empty tags, other data, other key; key sizes 0..65; SHA-2 digests vs Go')
